@@ -44,7 +44,10 @@ CLAIMED = {
               "the operator laws, so f(x, a=1, b=2) + f(x, b=2, a=1) is one term (the first spelling written), "
               "'-' removes it whichever spelling is subtracted, ':' collapses it -- for every callee, argument list "
               "and permutation at tree level, and for ALL identifier strings through the real scanner and parser "
-              "for the two-keyword shape (KF-C02-11, repaired in /repo)." + COMMON),
+              "for the two-keyword shape (KF-C02-11, repaired in /repo). Operand order (C02_operands.v): equality of "
+              "operator nodes inside call arguments is symbol + operands in order (no commutativity, not even for "
+              "+ and *), so I(x - z) and I(z - x) are different terms: '+' keeps both, '-' of one leaves the other, "
+              "':' keeps two factors." + COMMON),
         design_ref="DESIGN.md section 5 C02, section 10",
         technique="Coq proof: refinement of set semantics by the operator model; differential correspondence on exhaustive operator trees"),
     "C03": dict(
@@ -144,7 +147,10 @@ CLAIMED = {
               "drop is the design under pass with the incomplete rows removed, and on every row a term is NaN in all "
               "its columns if a numeric variable it reads is missing there and in none otherwise (NaN * 0 = NaN); "
               "the level-coverage premise is shown necessary by a computed witness. Stateful transforms under pass "
-              "(every row NaN) are tied by correspondence." + COMMON),
+              "(every row NaN) are tied by correspondence. Subtracted terms (C09_subtracted.v): y ~ r + t - t describes as "
+              "y ~ r for every term (or model) t not already in r, hence the same used columns, incomplete mask and "
+              "design for EVERY frame and policy -- the content of a column read only by t is irrelevant; x*z - z "
+              "still uses z." + COMMON),
         design_ref="DESIGN.md section 5 C09, section 10",
         technique="Coq proof: missing-value policy as a row filter over used columns; correspondence over missingness patterns"),
     "C10": dict(
@@ -197,7 +203,12 @@ CLAIMED = {
               "(de Boor-Cox recurrence, any degree, any sorted knots) and everywhere when inner knots are strictly "
               "inside; every invalid parameter combination refused; poly orthonormal and orthogonal to the constant "
               "given d+1 distinct abscissae; raw = powers. Floating point and scipy's splev are tied by tolerance "
-              "correspondence; finding KF-C14-1 (inner knot on the boundary)." + COMMON),
+              "correspondence; finding KF-C14-1 (inner knot on the boundary). Change of unit and origin (C14_affine.v): "
+              "centring absorbs a shift and commutes with a rescaling; scale / standardize and the orthonormal "
+              "polynomials of any degree are invariant under v -> c*v + a for c > 0 on training and on later data "
+              "(column k changes sign by (-1)^k for c < 0; recurrence quantities: P_k scales by c^k, norms by c^2k, "
+              "alpha by the map itself), from local root hypotheses on ksqrt only; bs is invariant when data, "
+              "knots and bounds move together; raw polynomials are not (witness)." + COMMON),
         design_ref="DESIGN.md section 5 C14, section 10",
         technique="Coq proof over exact rationals of the transforms' contracts; tolerance correspondence against numpy/scipy"),
     "C15": dict(
